@@ -14,4 +14,19 @@ META = {
                 "scheduler detecting deadlock/livelock in self-deregistration.",
         "technique": "stateless model checking (preemption-bounded exhaustive interleaving exploration of the real code, HB-prefix caching)",
     },
+    "C20": {
+        "text": "The exhaustive enumerations of exprgen (every depth-1 and depth-2 sender tree over the adaptor alphabet x leaf modes x "
+                "stop events x fault positions), of the stream pipelines and of the coroutine scripts are re-run in trace mode in each "
+                "build configuration {C++17,C++20} x {NDEBUG, debug+async stacks} x {continuation visitation 0,1}; each execution's "
+                "canonical observation trace (events, completion channel, value, completion context, order) is its outcome and the "
+                "multiset of outcomes is compared across configurations by digest and, on mismatch, entry by entry. Inside each "
+                "configuration trace_chain enumerates every pair of visitation-forwarding adaptors (and task<> nestings) around "
+                "async_trace_sender and checks the trace is a tree that reaches the root receiver, and that the thread's AsyncStackRoot "
+                "is restored after every case; a header matrix checks every public header still compiles in every configuration.",
+        "technique": "exhaustive bounded enumeration of operation sequences on the real code, differential across all build configurations "
+                     "(stateless model checking, sequential harnesses; digest comparison of complete outcome multisets)",
+        "note": "Sequential (single-threaded) harnesses only: the configuration switches select code, not schedules. quick = 4 of the 8 "
+                "configurations and 20 of 27 depth-2 roots; thorough = all 8 configurations and all roots. The header matrix is a compile check, "
+                "not an exploration; it is a precondition for the comparison, reported separately in the evidence.",
+    },
 }
